@@ -426,6 +426,9 @@ func (fr *frame) frameFormulas(items []modItem, st0, now *State, onlyChanged boo
 			if !ok {
 				panic(specErr("modifies elems of a non-slice"))
 			}
+			if _, isStruct := sl.Elem().Underlying().(*types.Struct); isStruct {
+				panic(specErr("modifies elems(x) of a slice of structs is not supported: name the class instead"))
+			}
 			for _, c := range vc.classesOfType(sl.Elem()) {
 				perClass[c] = append(perClass[c], "(and (= (akind a) 1) (= (ea_arr a) (s_arr "+sv.t+")))")
 			}
